@@ -82,6 +82,9 @@ type Clause struct {
 	Anchor *Anchor
 	Ghost  string // for ghost updates: variable assigned
 	Lock   string // for type invariants: guarding mutex field
+	// Optional: the anchor need not exist ('never call X': the obligation
+	// arises only where such a call is present)
+	Optional bool
 }
 
 func (c *Clause) HasProp(p string) bool {
@@ -568,6 +571,15 @@ func ParseContracts(path string) (*Contracts, error) {
 			curF.Inline = true
 		case "trusted":
 			curF.Trusted = true
+		case "never":
+			// never[Cxx] @label call Name : no call of that name anywhere in the function
+			lab, body := splitLabel(rest)
+			f := strings.Fields(body)
+			if curF == nil || len(f) != 2 || f[0] != "call" {
+				return fmt.Errorf("line %d: bad never clause (want: never call Name)", lineNo)
+			}
+			curF.At = append(curF.At, &Clause{Kind: "assert", Props: props, Label: lab, Expr: &EBool{V: false}, Text: "never call " + f[1], Line: lineNo,
+				Anchor: &Anchor{Kind: "call", Target: f[1]}, Optional: true})
 		case "effects":
 			for _, a := range splitTop(rest, ',') {
 				curF.Effects = append(curF.Effects, strings.TrimSpace(a))
